@@ -55,6 +55,21 @@ func VerifyPresignedV4Signature(root RootUserConfig, iam auth.IAMService, logger
 		ctx.Locals("account", account)
 
 		if utils.IsBigDataAction(ctx) {
+			// a payload hash sent along with a presigned upload is an
+			// assertion about the body like with a signed request: it is
+			// compared at the end of the stream
+			hashPayload := ctx.Get("X-Amz-Content-Sha256")
+			if hashPayload != "" && !utils.IsSpecialPayload(hashPayload) {
+				var err error
+				wrapBodyReader(ctx, func(r io.Reader) io.Reader {
+					r, err = utils.NewHashReader(r, hashPayload, utils.HashTypeSha256Hex)
+					return r
+				})
+				if err != nil {
+					return sendResponse(ctx, err, logger, mm)
+				}
+			}
+
 			wrapBodyReader(ctx, func(r io.Reader) io.Reader {
 				return utils.NewPresignedAuthReader(ctx, r, authData, account.Secret, debug)
 			})
